@@ -647,3 +647,4 @@ def run(col, configs, tier):
         guarded(col, rule_padding_not_disabled_by_trim, facts)
         guarded(col, rule_cut_exposes_no_zeros, facts)
         guarded(col, X.rule_incremented_digit_in_range, facts)
+        guarded(col, X.rule_zero_exponent_normalised, facts)
